@@ -32,7 +32,8 @@ def run(ctx):
     ctx.rule = RULE
     ctx.assumptions = ["the parser has no state besides the caller-owned deque (module-level function)",
                        "garbage between packets is chosen so that it cannot form a registered packet ID with any neighbour",
-                       "for streams with garbage only the returned packets are judged (DESIGN.md 7 rule 9)"]
+                       "for streams with filler the kept octets are not compared, but the returned packets and completion "
+                       "(rest of the stream + one more call delivers exactly the outstanding packets) are"]
     meta = {}
     edges = collections.defaultdict(list)      # (sid, srckey) -> [(ev, dst)]
 
@@ -59,6 +60,15 @@ def run(ctx):
             clause = "out"
         elif st["clean"] and flat(obs["queue"]) != flat(e["dst"]["queue"]):
             clause = "tail"
+        else:
+            # completion ("so that a later call finishes it"): whatever the call left in the real queue, appending the rest
+            # of the stream and parsing once more must deliver exactly the packets still outstanding - this also judges the
+            # tail of streams with filler, where the kept octets themselves are not compared
+            rest = st["stream"][e["dst"]["fed"]:]
+            fin = real_parse(obs["queue"] + ([rest] if rest else []), st["ids"])
+            if fin.get("out") != st["packets"][e["dst"]["nd"]:]:
+                clause = "completion"
+                obs = dict(obs, then_rest_of_stream=fin)
         if clause:
             tail = len(flat(e["dst"]["queue"]))
             fp = f"parser.parse/{clause}/clean={int(st['clean'])},tail<=6={int(0 < tail <= 6)},mode={mode}"
@@ -117,7 +127,7 @@ def run(ctx):
         e = hist[-1]
         init = hist[0]
         fp = f"parser.parse/{clause}/clean={int(init['clean'])},mode=trace"
-        ctx.violation(fp, f"recorded history: parse returned {short(shrink(e['out']))} leaving {short(shrink(e['queue']))}; "
+        ctx.violation(fp, f"recorded history: {short(shrink({k: e[k] for k in e if k not in ('id',)}), 500)}; "
                           f"the specification disagrees on {clause}",
                       {"kind": "parser-history", "history": hist})
     ctx.exhaustive = True
@@ -133,15 +143,19 @@ def histories(ctx):
     nh = ctx.q(1500, 60000)
     from spacepackets.ccsds.spacepacket import SpacePacket, SpacePacketHeader, SequenceFlags
     for h in range(nh):
-        apids = rng.sample(range(0, 2048), 3)
+        apids = rng.sample(range(0, 2047), 3)
         # 1..3 registered packet IDs of mixed type / secondary-header flag (PUS packets and plain space packets)
         kinds = rng.sample([("tc", PacketType.TC, True, apids[0]), ("tm", PacketType.TM, True, apids[1]),
                             ("sp", rng.choice([PacketType.TC, PacketType.TM]), False, apids[2])], rng.randrange(1, 4))
         ids = [PacketId(t, shf, ap).raw() for _, t, shf, ap in kinds]
         clean = rng.random() < 0.7
         stream = bytearray()
+        packets = []
+        filler = set()
+        idset = set(ids)
         npk = rng.randrange(1, ctx.q(8, 30))
         for _ in range(npk):
+            at = len(stream)
             n = rng.choice([0, 0, 1, 2, 5, 20, rng.randrange(0, 280)])
             data = bytes(rng.choice([0x18, 0x08, apids[0] & 0xFF, ids[0] >> 8, ids[0] & 0xFF, rng.randrange(256)]) for _ in range(n))
             k, t, shf, ap = rng.choice(kinds)
@@ -155,8 +169,17 @@ def histories(ctx):
                 hdr = SpacePacketHeader(packet_type=t, apid=ap, seq_count=rng.randrange(16384), data_len=len(ud) - 1,
                                         sec_header_flag=False, seq_flags=SequenceFlags(rng.randrange(4)))
                 stream += SpacePacket(hdr, None, ud).pack()
+            packets.append(octs(stream[at:]))
             if not clean and rng.random() < 0.5:
-                stream += bytes([0xFF]) * rng.randrange(1, 9)
+                f0 = len(stream)
+                stream += bytes([rng.choice([0xFF, 0xFF, 0xE7, 0x00])]) * rng.randrange(1, 12)
+                filler.update(range(f0, len(stream)))
+        # a filler octet must not be able to start a registered packet ID together with its right neighbour; otherwise the
+        # stream is ambiguous and only the per-call comparison applies (no end-of-history delivery check)
+        ambiguous = any(i + 1 < len(stream) and ((stream[i] << 8 | stream[i + 1]) & 0x1FFF) in idset for i in filler)
+        mutate_ids = len(ids) > 1 and rng.random() < 0.25
+        if mutate_ids:
+            ambiguous, clean = True, False      # packets of an ID that is not registered at the time are filler
         yield {"op": "init", "ids": ids, "clean": clean}
         dq = collections.deque()
         pids = [PacketId.from_raw(i) for i in ids]
@@ -168,10 +191,21 @@ def histories(ctx):
             pos += len(chunk)
             dq.append(bytearray(chunk))
             yield {"op": "feed", "chunk": octs(chunk)}
+            if mutate_ids and rng.random() < 0.15:
+                # the caller keeps ONE list object and changes it in place: drop an ID, or (re-)register one
+                if len(pids) > 1 and rng.random() < 0.5:
+                    pids.pop(rng.randrange(len(pids)))
+                else:
+                    cand = [PacketId.from_raw(i) for i in ids if all(i != q.raw() for q in pids)]
+                    if cand:
+                        pids.append(rng.choice(cand))
+                yield {"op": "set_ids", "ids": [q.raw() for q in pids]}
             if rng.random() < 0.5 or pos >= len(stream):
                 res = outcome(lambda: {"out": [octs(p) for p in parse_space_packets(dq, pids)]})
                 out = res.get("out", [[-1]])
                 yield {"op": "parse", "out": out, "queue": [octs(c) for c in dq]}
+        if not ambiguous:
+            yield {"op": "end", "packets": packets}
 
 
 def replay(r):
